@@ -54,6 +54,7 @@ def run(repo, rep):
     rule_empty_reductions(repo, rep)
     rule_report_none_operands(repo, rep)
     rule_round3(repo, rep)
+    rule_round4(repo, rep)
     rep.clause("C13-h", "the scale derivation never hands the bias / scale packer a shift it asserts against (range guard of quantise_scale == 0 <= shift < 64) [rule shared with C09-a]")
     from . import c09
 
@@ -949,3 +950,48 @@ def rule_round3(repo, rep):
                 rep.check(ok, "C13-k", "ethosu/vela/cascade_builder.py:CascadeBuilder.build_cascades", f"`{operand.id}` (compared with .index in `{str(norm(a.test))[:60]}`) is always assigned from an .index attribute",
                           f"assigned from {[str(norm(d)) for d in defs]}: a position in the builder's own op list is compared with global schedule indices; for a sub-schedule that does not start at op 0 the assertion fails")
     rep.floor("C13-k", 6)
+
+
+def rule_round4(repo, rep):
+    """(l) internal assertions / slice stores that every model of some class would trip."""
+    from ..exprnorm import linear
+    from .shared import closed_interval_sites, stale_extent_lint
+
+    rep.clause("C13-l", "cached array extents are used with the array they were measured on; live-range time intervals are closed wherever expanded (the fast-storage "
+               "book-keeping asserts against its own totals); the inferred SPLIT_V size satisfies the assertion that follows it; the scheduler's operand swap never puts a broadcast operand first")
+    mods = [m.name for m in repo.core_modules()]
+    n = stale_extent_lint(repo, rep, "C13-l", mods)
+    if n < 40:
+        raise AnalysisError(f"cached extents: only {n} (extent, use) pairs found")
+    closed_interval_sites(repo, rep, "C13-l")
+    # SPLIT_V: one size may be -1; it is replaced by the remainder so that `assert sum(sizes) == shape[axis]` holds:
+    # new sum = sum(sizes) + 1 + v  ==>  v = shape[axis] - sum(sizes) - 1
+    op = repo.mod("operation")
+    gs = op.func("Operation.get_split_inputs_axis")
+    site = "ethosu/vela/operation.py:Operation.get_split_inputs_axis"
+    cands = [st for st in ast.walk(gs) if isinstance(st, ast.Assign) and isinstance(st.targets[0], ast.Subscript) and norm(st.targets[0].value) == "sizes"]
+    asr = [a for a in ast.walk(gs) if isinstance(a, ast.Assert) and isinstance(a.test, ast.Compare) and "sum(sizes)" in str(norm(a.test))]
+    if len(cands) != 1 or len(asr) != 1:
+        raise AnalysisError("get_split_inputs_axis: SPLIT_V size inference / closing assertion not found")
+    total = [x for x in [asr[0].test.left] + asr[0].test.comparators if str(norm(x)) != "sum(sizes)"]
+    form = linear(cands[0].value)
+    want = {str(norm(total[0])): 1, "sum(sizes)": -1, "": -1} if len(total) == 1 else None
+    rep.check(want is not None and {k: v for k, v in form.items() if v} == want, "C13-l", site, f"inferred size = {norm(total[0]) if total else '?'} - sum(sizes) - 1 (the -1 placeholder is part of the sum)",
+              f"inferred size is `{str(norm(cands[0].value))}` = {form}: the assertion `{str(norm(asr[0].test))}` two statements later fails for every SPLIT_V with an inferred size (AssertionError traceback)")
+    # binary elementwise swap: the operand moved to the primary position is neither constant, scalar nor broadcast
+    sch = repo.mod("scheduler")
+    so = sch.func("SchedulerOperation.__init__")
+    prim = [st for st in ast.walk(so) if isinstance(st, ast.Assign) and norm(st.targets[0]) == "ifm2_can_be_primary"]
+    if len(prim) != 1:
+        raise AnalysisError("SchedulerOperation.__init__: ifm2_can_be_primary not found")
+    v = prim[0].value
+    dis = set()
+    if isinstance(v, ast.UnaryOp) and isinstance(v.op, ast.Not):
+        inner = v.operand
+        dis = {str(norm(x)) for x in (inner.values if isinstance(inner, ast.BoolOp) and isinstance(inner.op, ast.Or) else [inner])}
+    elif isinstance(v, ast.BoolOp) and isinstance(v.op, ast.And):
+        dis = {str(norm(x.operand)) for x in v.values if isinstance(x, ast.UnaryOp) and isinstance(x.op, ast.Not)}
+    need = {"ifm2.is_const", "ifm2.is_scalar", "ifm2.is_broadcast(ofm)"}
+    rep.check(need <= dis, "C13-l", "ethosu/vela/scheduler.py:SchedulerOperation.__init__", "IFM2 becomes the primary input only if it is not constant, not scalar and not broadcast",
+              f"missing exclusion {sorted(need - dis)}: a broadcast second operand is swapped into the primary position with reversed_operands set, and create_npu_elementwise_op asserts ifm_ifm2_correct_order")
+    rep.floor("C13-l", 45)
